@@ -652,4 +652,26 @@ example :
     (cycle (some (configCaps .absent .null (.val 0))) false {} [(⟨1, 0⟩, true)] [(⟨2, 1⟩, true)]).2 = [⟨false, false⟩, ⟨false, false⟩] ∧
       configLoads .absent .null (.val 0) = true ∧ configLoads .malformed .absent .absent = false := by decide
 
+/-- **arb_limits_roundtrip_config.**  Decoding, defaulting and conversion of the MigrationController plugin config hand every
+    arbitration limit to the filter as declared — an explicit value (0 = switched off included), the form of the per-workload
+    limits, the skipped gates and SkipCheckExpectedReplicas are unchanged; the only default filled in is
+    maxMigratingPerNode = 2 when the key is absent. -/
+theorem arb_limits_roundtrip_config (cfg : ArbCfg) :
+    let c := defaultArbCfg cfg
+    c.maxGlobal = cfg.maxGlobal ∧ c.maxNs = cfg.maxNs ∧ c.maxMigr = cfg.maxMigr ∧ c.maxUnav = cfg.maxUnav ∧
+    c.mmKind = cfg.mmKind ∧ c.muKind = cfg.muKind ∧ c.skip = cfg.skip ∧ c.skipCER = cfg.skipCER ∧ c.replicas = cfg.replicas ∧
+    (0 ≤ cfg.maxNode → c.maxNode = cfg.maxNode) ∧ (cfg.maxNode < 0 → c.maxNode = 2) := by
+  refine ⟨rfl, rfl, rfl, rfl, rfl, rfl, rfl, rfl, rfl, fun h => ?_, fun h => ?_⟩
+  · simp only [defaultArbCfg]; rw [if_neg (by omega)]
+  · simp only [defaultArbCfg]; rw [if_pos h]; rfl
+
+/-- **per_node_default_counterexample**: the default matters — with maxMigratingPerNode absent, three waiting jobs for three pods
+    of one node: the filter configured through the file admits two (the documented default), a filter given the bare nil
+    admits all three -/
+theorem per_node_default_counterexample :
+    let cfg : ArbCfg := { maxGlobal := -1, maxNode := -1, maxNs := -1, maxMigr := 10, maxUnav := 10, replicas := [(2, 20)] }
+    let st : ArbSt := { pods := [⟨1, 1, 1, 2, true, false, false, 0⟩, ⟨2, 1, 1, 2, true, false, false, 0⟩, ⟨3, 1, 1, 2, true, false, false, 0⟩],
+                        jobs := [⟨1, 1, 1, 0, false, 1⟩, ⟨2, 2, 1, 0, false, 2⟩, ⟨3, 3, 1, 0, false, 3⟩], waiting := [1, 2, 3] }
+    cntNode (round (defaultArbCfg cfg) [] st [1, 2, 3]) 1 = 2 ∧ cntNode (round cfg [] st [1, 2, 3]) 1 = 3 := by decide
+
 end KoordVerif.C16
